@@ -6,7 +6,9 @@
    all orders and sizes over a, b, c and the assigned column d; predicates -
    comparisons, conjunctions, isin / notna, reductions inside the predicate;
    assigns that create d or shadow a, b, c, with and without reductions;
-   frame-level elementwise steps; heads) followed by a final form (the frame,
+   frame-level elementwise steps; heads; dropna / drop_duplicates / nlargest / nsmallest, which look at
+   columns they need not output; disjunctions of conjunctions with AND-terms shared by all / some
+   clauses) followed by a final form (the frame,
    one column, a reduction of one column), over the source tables Sources
    (3 columns a, b, c; 4 rows).  Programs of depth d are thinned by
    Stride[d] (1 = all of them): a program is kept when a mixing hash of its
@@ -53,7 +55,20 @@ PredMenu == <<
   XU("notna", B),
   XIsIn(C, <<1, 2>>),
   XBin("gt", D, XK(1)),
-  XBin("ge", XBin("add", A, C), XRed("count", B))
+  XBin("ge", XBin("add", A, C), XRed("count", B)),
+  \* disjunctions of conjunctions over a pool of atoms, with controlled sharing of AND-terms:
+  \* shared by SOME clauses only (a row may satisfy just the clause without the shared term)
+  XBin("or", XBin("or", XBin("and", XBin("gt", A, XK(1)), XBin("lt", C, XK(2))),
+                        XBin("and", XBin("gt", A, XK(1)), XU("notna", B))),
+             XBin("eq", C, XK(2))),
+  \* shared by ALL clauses (two and three clauses)
+  XBin("or", XBin("and", XBin("gt", A, XK(1)), XBin("lt", C, XK(1))),
+             XBin("and", XBin("gt", A, XK(1)), XBin("le", B, C))),
+  XBin("or", XBin("or", XBin("and", XBin("gt", A, XK(0)), XBin("lt", C, XK(2))),
+                        XBin("and", XBin("ge", C, XK(1)), XBin("gt", A, XK(0)))),
+             XBin("and", XBin("gt", A, XK(0)), XU("notna", B))),
+  \* one clause consists of the shared terms only
+  XBin("or", XBin("and", XBin("gt", A, XK(0)), XBin("lt", C, XK(2))), XBin("gt", A, XK(0)))
 >>
 AssignMenu == <<
   <<"d", XBin("add", A, B)>>,
@@ -72,7 +87,17 @@ StepMenu ==
   \o [j \in DOMAIN PredMenu   |-> [k |-> "filter", p |-> PredMenu[j]]]
   \o [j \in DOMAIN AssignMenu |-> [k |-> "assign", name |-> AssignMenu[j][1], x |-> AssignMenu[j][2]]]
   \o << [k |-> "fmap", f |-> "addc", v |-> 1], [k |-> "fmap", f |-> "fillna", v |-> 0],
-        [k |-> "head", n |-> 2], [k |-> "head", n |-> 3] >>
+        [k |-> "head", n |-> 2], [k |-> "head", n |-> 3],
+        \* row selections that look at columns they need not output
+        [k |-> "dropna", how |-> "any", sub |-> <<>>, th |-> NA],
+        [k |-> "dropna", how |-> "all", sub |-> <<"b", "d">>, th |-> NA],
+        [k |-> "dropna", how |-> "any", sub |-> <<>>, th |-> 3],
+        [k |-> "dropdup", sub |-> <<>>, keep |-> "first"],
+        [k |-> "dropdup", sub |-> <<>>, keep |-> "last"],
+        [k |-> "dropdup", sub |-> <<"a">>, keep |-> "first"],
+        [k |-> "dropdup", sub |-> <<"c", "a">>, keep |-> "last"],
+        [k |-> "ntop", n |-> 2, c |-> "a", big |-> TRUE],
+        [k |-> "ntop", n |-> 3, c |-> "c", big |-> FALSE] >>
 FinMenu == << [k |-> "frame"], [k |-> "col", c |-> "a"], [k |-> "col", c |-> "b"], [k |-> "col", c |-> "d"],
               [k |-> "red", op |-> "sum", c |-> "c"], [k |-> "red", op |-> "max", c |-> "a"],
               [k |-> "red", op |-> "count", c |-> "b"], [k |-> "red", op |-> "min", c |-> "d"] >>
